@@ -8,24 +8,24 @@
     tables and field skeletons regenerated from the Go source (Generated.v). *)
 From Coq Require Import ZArith List Bool.
 From Hts Require Import Base.Prim Generated Model.BamCodec Model.BamSpec
-  Proofs.BamRecord Proofs.BamStream Proofs.BamProps Proofs.BamSpecEq Proofs.BamSeq.
+  Proofs.BamAux Proofs.BamRecord Proofs.BamStream Proofs.BamProps Proofs.BamSpecEq Proofs.BamSeq.
 Import ListNotations.
 Open Scope Z_scope.
 
 (** Every valid record (name 1..254 bytes without NUL, references in the
-    header or nil, int32 positions, <= 65535 CIGAR operations of types 0..10,
+    header or nil, int32 positions, <= 65535 CIGAR operations of any type,
     len Seq = (L+1)/2, qualities absent or of length L, aux fields well formed
     for A c C s S i I f Z H B, block size below 2^31): Write emits the block
     size and a block, and Read on that block returns [canon r] (absent
     qualities as L bytes 0xff), retaining nothing of the shared buffer,
-    whichever buffer was used and whatever spare capacity its copy had. *)
+    whichever buffer was used. *)
 Theorem bam_record_roundtrip :
-  forall nrefs r shared spare,
-    valid_rec nrefs r = true -> 0 <= spare ->
+  forall nrefs r shared,
+    valid_rec nrefs r = true ->
     exists body,
       encode_record r = Ok (le_put 4 (zlen body) ++ body) /\
       zlen body = block_size r /\
-      decode_record bam_None nrefs shared spare body = Ok (canon r, false).
+      decode_record bam_None nrefs shared body = Ok (canon r, false).
 Proof. exact record_roundtrip. Qed.
 Print Assumptions bam_record_roundtrip.
 
@@ -33,11 +33,11 @@ Print Assumptions bam_record_roundtrip.
     same header, the records in order (under any Omit mode) and a clean EOF;
     by induction on the record list. *)
 Theorem bam_stream_roundtrip :
-  forall h rs omit spare,
-    valid_hdr h = true -> forallb (valid_rec (zlen (h_refs h))) rs = true -> 0 <= spare ->
+  forall h rs omit,
+    valid_hdr h = true -> forallb (valid_rec (zlen (h_refs h))) rs = true ->
     exists bs,
       encode_stream h rs = Ok bs /\
-      read_stream omit spare bs = Ok (h, (map (fun r => (omit_view omit (canon r), false)) rs, EndEOF)).
+      read_stream omit bs = Ok (h, (map (fun r => (omit_view omit (canon r), false)) rs, EndEOF)).
 Proof. exact stream_roundtrip. Qed.
 Print Assumptions bam_stream_roundtrip.
 
@@ -51,15 +51,15 @@ Print Assumptions bam_header_roundtrip.
     AllVariableLengthData additionally without sequence and qualities
     (Seq.Length 0, nil slices); nothing else changes. *)
 Theorem bam_omit :
-  forall nrefs r shared spare,
-    valid_rec nrefs r = true -> 0 <= spare ->
+  forall nrefs r shared,
+    valid_rec nrefs r = true ->
     exists body,
       encode_record r = Ok (le_put 4 (zlen body) ++ body) /\
-      decode_record bam_None nrefs shared spare body = Ok (canon r, false) /\
-      decode_record bam_AuxTags nrefs shared spare body
+      decode_record bam_None nrefs shared body = Ok (canon r, false) /\
+      decode_record bam_AuxTags nrefs shared body
         = Ok (mkRec (r_name r) (r_ref r) (r_pos r) (r_mapq r) (r_cigar r) (r_flags r) (r_mref r) (r_mpos r)
                     (r_tlen r) (r_lseq r) (r_seq r) (Some (qual_bytes r)) [], false) /\
-      decode_record bam_AllVariableLengthData nrefs shared spare body
+      decode_record bam_AllVariableLengthData nrefs shared body
         = Ok (mkRec (r_name r) (r_ref r) (r_pos r) (r_mapq r) (r_cigar r) (r_flags r) (r_mref r) (r_mpos r)
                     (r_tlen r) 0 [] None [], false).
 Proof. exact omit_modes. Qed.
@@ -83,35 +83,36 @@ Proof. exact spec_bin_only. Qed.
 Print Assumptions bam_spec_bin_only.
 
 (** The shared-vs-private buffer decision (block size <= 4096) does not
-    influence the result: on every input when the copy has no spare capacity,
-    and on every valid record for any capacities. *)
+    influence the result on any input, and no record returned by Read retains
+    a slice of the shared buffer. *)
 Theorem shared_buffer_irrelevant :
-  (forall omit nrefs data, decode_record omit nrefs true 0 data = decode_record omit nrefs false 0 data) /\
-  (forall nrefs r omit sh sh' sp sp',
-     valid_rec nrefs r = true -> 0 <= sp -> 0 <= sp' ->
-     exists body,
-       encode_record r = Ok (le_put 4 (zlen body) ++ body) /\
-       decode_record omit nrefs sh sp body = decode_record omit nrefs sh' sp' body /\
-       (forall res, decode_record omit nrefs sh sp body = Ok res -> snd res = false)).
-Proof. split; [exact shared_irrelevant_all_inputs|exact shared_irrelevant_valid]. Qed.
+  (forall omit nrefs data, decode_record omit nrefs true data = decode_record omit nrefs false data) /\
+  (forall omit nrefs sh data res, decode_record omit nrefs sh data = Ok res -> snd res = false).
+Proof. split; [exact shared_irrelevant_all_inputs|exact no_alias]. Qed.
 Print Assumptions shared_buffer_irrelevant.
 
-(** Outside the valid records the spare capacity of the copy is visible: an
-    aux field cut short panics with no spare capacity and is returned padded
-    with the copy's zero bytes otherwise (decoder totality is C11's subject). *)
-Theorem shared_buffer_capacity_malformed_refuted :
-  exists data,
-    decode_record 0 0 true 0 data = Panic 3 /\
-    exists r, decode_record 0 0 true 2 data = Ok (r, false) /\ r_aux r = [[88; 89; 105; 1; 2; 0; 0]].
-Proof. exists cut_aux_record. exact spare_matters_on_cut_aux. Qed.
-Print Assumptions shared_buffer_capacity_malformed_refuted.
+(** Reader.Read on one block is total on byte strings: a record or an error,
+    never a panic, never non-termination (holds since the repairs "bam Reader
+    reports a record block shorter than its length fields" and "bam parseAux
+    checks each optional field against the end of the record"; before them
+    the model had a panic that depended on the spare capacity of the buffer
+    copy and a non-terminating aux input). *)
+Theorem bam_decode_total :
+  forall omit nrefs shared data, all_bytes data = true ->
+    (exists r, decode_record omit nrefs shared data = Ok r) \/ (exists e, decode_record omit nrefs shared data = Err e).
+Proof. exact decode_total. Qed.
+Print Assumptions bam_decode_total.
 
-(** parseAux does not terminate on a B array of subtype Z/H/B with count 8
-    (the model runs out of any fuel): noted for C11, not part of C05's claim. *)
-Theorem parse_aux_total_refuted :
-  exists aux, forall fuel spare, 0 <= spare -> parse_aux_loop fuel spare aux = Stuck.
-Proof. exists stuck_aux. exact parse_aux_no_progress. Qed.
-Print Assumptions parse_aux_total_refuted.
+Theorem parse_aux_total :
+  forall aux, all_bytes aux = true -> (exists r, parse_aux aux = Ok r) \/ (exists e, parse_aux aux = Err e).
+Proof. exact BamAux.parse_aux_total. Qed.
+Print Assumptions parse_aux_total.
+
+(** The inputs that showed the two former defects are now rejected. *)
+Example former_defect_inputs :
+  decode_record 0 0 true cut_aux_record = Err 23 /\ decode_record 0 0 false cut_aux_record = Err 23
+  /\ parse_aux stuck_aux = Err 25.
+Proof. exact former_witnesses. Qed.
 
 (** Nybble packing (sam.NewSeq / Seq.Expand over the generated tables). *)
 Theorem seq_pack_roundtrip :
@@ -164,7 +165,7 @@ Example ex_rec_valid : valid_rec 1 ex_rec = true /\ pad_ok ex_rec = true.
 Proof. split; vm_compute; reflexivity. Qed.
 
 Example ex_rec_roundtrip :
-  exists e, encode_record ex_rec = Ok e /\ decode_record 0 1 true 0 (skipn 4 e) = Ok (canon ex_rec, false)
+  exists e, encode_record ex_rec = Ok e /\ decode_record 0 1 true (skipn 4 e) = Ok (canon ex_rec, false)
             /\ mask_bin e = mask_bin (spec_encode (abs 0 ex_rec)).
 Proof. eexists. split; [vm_compute; reflexivity|]. split; vm_compute; reflexivity. Qed.
 
